@@ -30,6 +30,8 @@ def configs():
         ("EnsembleSampler", {}), ("EnsembleSampler", {"bounds": True}),
         # non-default tuning state: a stretch parameter other than 2; assessment intervals that have already grown
         ("EnsembleSampler", {"alpha": 3.5}), ("GibbsChain", {"grown": True}), ("HamiltonianChain", {"grown": True, "T": 2.0}),
+        # a particle mass re-estimated from the samples after construction (per-parameter and full matrix)
+        ("HamiltonianChain", {"remass": "diagonal"}), ("HamiltonianChain", {"remass": "full", "T": 2.0, "bounds": True}),
     ]
 
 
@@ -69,6 +71,10 @@ def build(cname, opt, sd):
             ch.set_non_negative(1, True)
             ch.set_boundaries(2, (0.5, 2.5))
             ch.set_non_negative(2, True)
+    if opt.get("remass"):
+        ch.rng = np.random.default_rng(sd + 77)
+        ch.advance(25)
+        ch.estimate_mass(diagonal=(opt["remass"] == "diagonal"))
     if opt.get("grown"):
         # a state every long run reaches: the acceptance-rate assessment interval has grown from its initial value
         for p_ in getattr(ch, "params", []) or []:
